@@ -51,26 +51,33 @@ pub fn explore(roots: &[(Board, u64)], max_depth: usize, max_states: u64, v: &dy
         stats.layer_sizes.push(frontier.len() as u64);
         stats.states += frontier.len() as u64;
         stats.max_depth = depth as u64;
-        let results: Vec<Vec<(Board, u64)>> = par_map(&frontier, |b| v.visit(b, depth));
         let mut next: Vec<Board> = Vec::new();
         let last = depth >= max_depth;
-        for succs in results {
-            stats.transitions += succs.len() as u64;
-            if last {
-                continue;
-            }
-            for (b, aux) in succs {
-                let k = key_of(&b);
-                match visited.get(&k) {
-                    Some(stored) => {
-                        stats.merges += 1;
-                        if *stored != aux {
-                            v.merge_mismatch(&b, *stored, aux);
+        if last {
+            // deepest layer: every state is still visited (checked), only the number of its
+            // successors is kept -- materialising them all would cost tens of gigabytes
+            let counts: Vec<u64> = par_map(&frontier, |b| v.visit(b, depth).len() as u64);
+            stats.transitions += counts.iter().sum::<u64>();
+        } else {
+            // inner layers in blocks, so that only one block's successors are alive at a time
+            for block in frontier.chunks(1 << 20) {
+                let results: Vec<Vec<(Board, u64)>> = par_map(block, |b| v.visit(b, depth));
+                for succs in results {
+                    stats.transitions += succs.len() as u64;
+                    for (b, aux) in succs {
+                        let k = key_of(&b);
+                        match visited.get(&k) {
+                            Some(stored) => {
+                                stats.merges += 1;
+                                if *stored != aux {
+                                    v.merge_mismatch(&b, *stored, aux);
+                                }
+                            }
+                            None => {
+                                visited.insert(k, aux);
+                                next.push(b);
+                            }
                         }
-                    }
-                    None => {
-                        visited.insert(k, aux);
-                        next.push(b);
                     }
                 }
             }
